@@ -563,7 +563,7 @@ static oview_t fview_of(const F *f) { oview_t w; w.has = FENG(*f); w.id = w.has 
 #define INVF(k, f) VF_ASSERT(inv_fun(k, &(f)), "C03: representation invariant after the operation: the storage holds a live callable <=> the vtable is not the empty vtable")
 #define DESTROYF_(k, f) do { tn_dtor(&(f)); VF_ASSERT(vf_all_dead(k), "C03: nothing alive once the owner is destroyed"); } while (0)
 
-/*@GROUP name=n_ctors props=C03,C02 kind=F unwind=7 objbits=12@*/
+/*@GROUP name=n_ctors props=C03,C20,C02 kind=F unwind=7 objbits=12@*/
 void h_n_ctors(void) { VF_INPUT(F, f); raw_fun(0, &f); ARGF(x); VF_INPUT(unsigned char, which); VF_INPUT(int, a); __CPROVER_assume(which <= 3); id_type xid = x.id;
   if (which == 0) tn_default(&f); else if (which == 1) tn_nullptr(&f); else if (which == 2) tn_from(&f, &x); else tn_from_rv(&f, &x);
   INVF(0, f); LEAKFREE(1); VF_ASSERT(vf_out_live(&x, 3), "C03: the argument is still alive");
@@ -571,7 +571,7 @@ void h_n_ctors(void) { VF_INPUT(F, f); raw_fun(0, &f); ARGF(x); VF_INPUT(unsigne
   if (e.has) { VF_ASSERT(tn_call(&f, a) == (a & 1) + xid, "operator() invokes the stored callable"); INVF(0, f); }
   DESTROYF_(0, f); LEAKFREE(1); VF_REACH(); }
 
-/*@GROUP name=n_copy_move props=C03,C02 kind=F unwind=7 objbits=12 cost=2@*/
+/*@GROUP name=n_copy_move props=C03,C20,C02 kind=F unwind=7 objbits=12 cost=2@*/
 void h_n_copy_move(void) { ARBF(1, s); VF_INPUT(F, t); VF_INPUT(unsigned char, t_sel); VF_INPUT(unsigned char, which); ARGF(x); __CPROVER_assume(which <= 3); oview_t os = fview_of(&s); oview_t em; em.has = 0;
   if (which == 0) { raw_fun(0, &t); tn_copy_ctor(&t, &s); }
   else if (which == 1) { own_fun(0, &t, t_sel); tn_assign(&t, &s); }
@@ -584,18 +584,18 @@ void h_n_copy_move(void) { ARBF(1, s); VF_INPUT(F, t); VF_INPUT(unsigned char, t
   VF_INPUT_BOOL(reassign); if (reassign) { tn_assign_fn(&s, &x); INVF(1, s); VF_ASSERT(FENG(s) && FEL(s)->id == x.id, "assignment of a callable to the moved-from source"); }
   LEAKFREE(1); DESTROYF_(1, s); INVF(0, t); VF_ASSERT(oview_eq(fview_of(&t), os), "destroying the source leaves the target alone"); DESTROYF_(0, t); LEAKFREE(1); VF_REACH(); }
 
-/*@GROUP name=n_modify props=C03,C02 kind=F unwind=7 objbits=12@*/
+/*@GROUP name=n_modify props=C03,C20,C02 kind=F unwind=7 objbits=12@*/
 void h_n_modify(void) { ARBF(0, f); ARGF(x); VF_INPUT_BOOL(null); id_type xid = x.id; if (null) tn_assign_null(&f); else tn_assign_fn(&f, &x);
   INVF(0, f); LEAKFREE(1); VF_ASSERT(vf_out_live(&x, 3) && x.id == xid, "C03: the argument is alive and unchanged");
   oview_t e; e.has = !null; e.id = xid; VF_ASSERT(oview_eq(fview_of(&f), e), "= nullptr: empty (the old callable is destroyed); = callable: holds a copy");
   DESTROYF_(0, f); LEAKFREE(1); VF_REACH(); }
 
-/*@GROUP name=n_swap props=C03,C02 kind=F unwind=7 objbits=12 cost=2@*/
+/*@GROUP name=n_swap props=C03,C20,C02 kind=F unwind=7 objbits=12 cost=2@*/
 void h_n_swap(void) { ARBF(0, a); ARBF(1, b); oview_t oa = fview_of(&a), ob = fview_of(&b); tn_swap(&a, &b);
   INVF(0, a); INVF(1, b); LEAKFREE(0); VF_ASSERT(oview_eq(fview_of(&a), ob) && oview_eq(fview_of(&b), oa), "swap exchanges the callables over all four (empty, engaged) pairs");
   DESTROYF_(0, a); INVF(1, b); DESTROYF_(1, b); LEAKFREE(0); VF_REACH(); }
 
-/*@GROUP name=n_widen props=C03,C02 kind=F unwind=7 objbits=12@*/
+/*@GROUP name=n_widen props=C03,C20,C02 kind=F unwind=7 objbits=12@*/
 void h_n_widen(void) { /* inplace_function<int(int),16,1>(inplace_function<int(int),8,1> const& / &&): the converting constructors */
   ARBF(1, s); VF_INPUT(struct etl_inplace_function_int_int_16_1, t); VF_INPUT_BOOL(mv); VF_INPUT(int, a); oview_t os = fview_of(&s); oview_t em; em.has = 0;
   vf_region_set(0, (FN *)&t._storage, sizeof t._storage, 1); vf_region_live_prefix(0, 0, 3);
@@ -606,7 +606,7 @@ void h_n_widen(void) { /* inplace_function<int(int),16,1>(inplace_function<int(i
   if (os.has) { VF_ASSERT(((FN *)&t._storage)->id == os.id && tnw_call(&t, a) == (a & 1) + os.id, "the widened target calls an equivalent callable"); }
   DESTROYF_(1, s); tnw_dtor(&t); VF_ASSERT(vf_all_dead(0), "C03: nothing alive once the owner is destroyed"); LEAKFREE(0); VF_REACH(); }
 
-/*@GROUP name=n_self props=C03,C02 kind=F unwind=7 objbits=12@*/
+/*@GROUP name=n_self props=C03,C20,C02 kind=F unwind=7 objbits=12@*/
 void h_n_self(void) { ARBF(0, a); oview_t oa = fview_of(&a); VF_INPUT(unsigned char, which); __CPROVER_assume(which <= 2);
   VF_KNOWN(C03_ipf_self_swap, which == 2 && oa.has);
   if (which == 0) tn_assign(&a, &a); else if (which == 1) tn_assign_rv(&a, &a); else tn_swap(&a, &a);
